@@ -6,6 +6,7 @@
 #include "json.h"
 #include "json_object_private.h"
 #include "printbuf.h"
+#include "json_patch.h"
 const char *DOMAIN = "heap";
 
 #define MAXID 20000
@@ -137,6 +138,24 @@ static char *cstr_of_hex(const char *hx)
 	return z;
 }
 
+/* a one-operation JSON patch applied in place; the patch document holds its own reference
+ * to the value for the duration of the call */
+static int apply_patch(struct json_object **base, const char *op, const char *path, const char *from,
+                       int has_value, struct json_object *v)
+{
+	struct json_object *patch = json_object_new_array(), *el = json_object_new_object();
+	struct json_patch_error err;
+	int rc;
+	json_object_object_add(el, "op", json_object_new_string(op));
+	json_object_object_add(el, "path", json_object_new_string(path));
+	if (from) json_object_object_add(el, "from", json_object_new_string(from));
+	if (has_value) json_object_object_add(el, "value", json_object_get(v));
+	json_object_array_add(patch, el);
+	rc = json_patch_apply(NULL, patch, base, &err);
+	json_object_put(patch);
+	return rc;
+}
+
 void run_case(char *rest)
 {
 	char *tok, *save = NULL;
@@ -240,6 +259,31 @@ void run_case(char *rest)
 			ret = json_pointer_set(&r, path, v);
 			(free)(path);
 			if (ret == 0 && r != r0 && r != v) ret = -98;   /* *obj may only become value */
+		} else if ((!strcmp(a[0], "padd") || !strcmp(a[0], "prepl")) && na == 4) {
+			struct json_object *r = H(a[1], &bad), *v = H(a[3], &bad), *r0 = r;
+			char *path;
+			if (bad || !r) { printf("DEADHANDLE"); return; }
+			path = cstr_of_hex(a[2]);
+			ret = apply_patch(&r, a[0][1] == 'a' ? "add" : "replace", path, NULL, 1, v);
+			(free)(path);
+			if (r != r0) ret = -97;
+		} else if (!strcmp(a[0], "prem") && na == 3) {
+			struct json_object *r = H(a[1], &bad), *r0 = r;
+			char *path;
+			if (bad || !r) { printf("DEADHANDLE"); return; }
+			path = cstr_of_hex(a[2]);
+			ret = apply_patch(&r, "remove", path, NULL, 0, NULL);
+			(free)(path);
+			if (r != r0) ret = -97;
+		} else if ((!strcmp(a[0], "pcopy") || !strcmp(a[0], "pmove")) && na == 4) {
+			struct json_object *r = H(a[1], &bad), *r0 = r;
+			char *from, *path;
+			if (bad || !r) { printf("DEADHANDLE"); return; }
+			from = cstr_of_hex(a[2]);
+			path = cstr_of_hex(a[3]);
+			ret = apply_patch(&r, a[0][1] == 'c' ? "copy" : "move", path, from, 0, NULL);
+			(free)(from); (free)(path);
+			if (r != r0) ret = -97;
 		} else if (!strcmp(a[0], "use") && na == 2) {
 			struct json_object *o = H(a[1], &bad);
 			const char *s;
